@@ -79,6 +79,7 @@ struct Out {
 	streams_ended: usize,
 	lags: usize,
 	unsub_requests: usize,
+	notifs_with_unknown_members: usize,
 }
 
 fn gen_spec(seed: u64) -> Spec {
@@ -165,7 +166,8 @@ async fn run_spec(spec: &Spec) -> Out {
 	}
 
 	// read the wire after every step: answer unsubscribe calls, count them
-	async fn drain_wire(srv: &mut jrv::script::ServerSide, unsub_seen: &mut HashMap<String, usize>, out: &mut Out) {
+	let mut deferred: Option<Vec<String>> = if (spec.seed >> 29) % 3 == 0 { Some(Vec::new()) } else { None };
+	async fn drain_wire(srv: &mut jrv::script::ServerSide, unsub_seen: &mut HashMap<String, usize>, out: &mut Out, deferred: &mut Option<Vec<String>>) {
 		for m in srv.drain_out() {
 			if let jrv::script::ClientOut::Msg { text, .. } = m {
 				match parse_wire(&text) {
@@ -177,7 +179,14 @@ async fn run_spec(spec: &Spec) -> Out {
 							out.violations.push(("unsubscribe-malformed/params".into(), format!("{}", q.params)));
 						}
 						if let Some(id) = &q.id {
-							srv.push_text(ok_response(id, json!(true)));
+							// (late acknowledgements: the server answers unsubscribe calls only at the end of the history, so
+							// whatever it sends meanwhile for that subscription meets a client that is still waiting for the ack)
+							match deferred {
+								Some(d) => d.push(ok_response(id, json!(true))),
+								None => {
+									srv.push_text(ok_response(id, json!(true)));
+								}
+							}
 						}
 					}
 					other => out.history.push(format!("client -> {other:?}")),
@@ -242,7 +251,18 @@ async fn run_spec(spec: &Spec) -> Out {
 							};
 							let seq = model[*slot].next_seq;
 							model[*slot].next_seq += 1;
-							parts.push(sub_notif("m", &id, json!({"slot": slot, "seq": seq})));
+							// one notification in five carries a member the client does not know inside `params` (before, between or
+							// after the two it needs): it is still a notification the server sent for that subscription
+							let payload = json!({"slot": slot, "seq": seq});
+							parts.push(match (spec.seed.wrapping_add(seq * 7 + *slot as u64)) % 15 {
+								0 => format!("{{\"jsonrpc\":\"2.0\",\"method\":\"m\",\"params\":{{\"seq\":{seq},\"subscription\":{id},\"result\":{payload}}}}}"),
+								1 => format!("{{\"jsonrpc\":\"2.0\",\"method\":\"m\",\"params\":{{\"subscription\":{id},\"meta\":{{\"a\":[1,2]}},\"result\":{payload}}}}}"),
+								2 => format!("{{\"jsonrpc\":\"2.0\",\"method\":\"m\",\"params\":{{\"result\":{payload},\"subscription\":{id},\"extra\":null}}}}"),
+								_ => sub_notif("m", &id, payload),
+							});
+							if (spec.seed.wrapping_add(seq * 7 + *slot as u64)) % 15 < 3 {
+								out.notifs_with_unknown_members += 1;
+							}
 							let m = &mut model[*slot];
 							if m.routed {
 								if !m.held {
@@ -364,7 +384,7 @@ async fn run_spec(spec: &Spec) -> Out {
 				out.history.push(format!("consumer unsubscribes slot {slot}"));
 				let t = tokio::spawn(h.unsubscribe());
 				settle().await;
-				drain_wire(&mut srv, &mut unsub_seen, &mut out).await;
+				drain_wire(&mut srv, &mut unsub_seen, &mut out, &mut deferred).await;
 				match tokio::time::timeout(Duration::from_secs(30), t).await {
 					Ok(Ok(Ok(()))) => {}
 					other => bad!("unsubscribe-stuck/explicit", "slot {slot}: {other:?}"),
@@ -386,9 +406,17 @@ async fn run_spec(spec: &Spec) -> Out {
 			}
 		}
 		settle().await;
-		drain_wire(&mut srv, &mut unsub_seen, &mut out).await;
+		drain_wire(&mut srv, &mut unsub_seen, &mut out, &mut deferred).await;
 	}
 
+	// late acknowledgements arrive now
+	if let Some(d) = deferred.take() {
+		out.history.push(format!("server -> {} late unsubscribe acknowledgement(s)", d.len()));
+		for t in d {
+			srv.push_text(t);
+		}
+		settle().await;
+	}
 	// the end: optionally the peer closes; then every held stream is drained
 	if spec.end_with_peer_close {
 		srv.close_peer();
@@ -455,7 +483,7 @@ async fn run_spec(spec: &Spec) -> Out {
 		}
 	}
 	settle().await;
-	drain_wire(&mut srv, &mut unsub_seen, &mut out).await;
+	drain_wire(&mut srv, &mut unsub_seen, &mut out, &mut deferred).await;
 
 	// unsubscribe requests: exactly the expected number, each naming a subscription id of this history
 	if !conn_closed {
@@ -484,6 +512,10 @@ fn record(spec: &Spec, o: Out, ev: &mut Evidence, violations: &mut Vec<Violation
 	ev.eval();
 	ev.count(["histories_client_built_by_core_builder", "histories_client_built_by_core_builder_then_set_rpc_middleware", "histories_client_built_by_ws_builder", "histories_client_built_by_ws_builder_then_set_rpc_middleware"][((spec.seed >> 17) % 4) as usize], 1);
 	ev.count("push_messages", o.pushes as u64);
+	ev.count("notifications_with_members_unknown_to_the_client_in_params", o.notifs_with_unknown_members as u64);
+	if (spec.seed >> 29) % 3 == 0 {
+		ev.count("histories_with_late_unsubscribe_acknowledgements", 1);
+	}
 	ev.count("items_pushed", o.items_pushed as u64);
 	ev.count("array_messages", o.arrays as u64);
 	ev.count("items_yielded_by_streams", o.items_yielded as u64);
